@@ -117,7 +117,10 @@ Reorg(S, old, new) ==
                 !.txl   = [t \in 1..NT |-> IF t \in delTx \ newTx THEN Nil ELSE @[t]],
                 !.canon = [i \in 1..N |-> IF i > from /\ \A j \in (from+1)..i : S3.canon[j] # Nil THEN Nil ELSE @[i]]]
 
-SetHeadTo(S, b) == WriteHead(IF Par(b) # S.hb THEN Reorg(S, S.hb, b)
+(* F1Fixed = TRUE models the candidate fix of C38-F1 (NOTES.md): the callers of writeHeadBlock also run *)
+(* reorg when the head header is not the head block, which clears the index above the head. *)
+F1Fixed == FALSE
+SetHeadTo(S, b) == WriteHead(IF Par(b) # S.hb \/ (F1Fixed /\ S.hh # S.hb) THEN Reorg(S, S.hb, b)
                                 ELSE [S EXCEPT !.f1 = @ \/ S.hh # S.hb], b)
 
 (* writeBlockWithState *)
